@@ -17,7 +17,7 @@ OPTIONS = {
     "thorough": {"max_paths": 1500000, "unit_budget_s": 3300},
 }
 BOUNDS = {
-    "quick": {"raw_bytes": "all byte strings of length <= 6 (fresh server/client), <= 5 in the other pre-states", "window": "2 symbolic octets at every offset of 17 seed messages", "cuts": "whole delivery and every 2-chunk cut for raw strings of length <= 4; windows delivered whole and cut once in the middle of the window", "pre_states": "client/server x fresh/opened/search/binding"},
+    "quick": {"raw_bytes": "all byte strings of length <= 6 (fresh server/client), <= 5 in the other pre-states", "window": "2 symbolic octets at every offset of 17 seed messages", "cuts": "whole delivery and every 2-chunk cut for raw strings of length <= 4; windows delivered whole and cut once in the middle of the window", "pre_states": "client/server x fresh/opened/search/binding", "histories": "every pair of application calls (accepted or refused) followed by a delivered message of every kind with a symbolic id 0..6"},
     "thorough": {"raw_bytes": "all byte strings of length <= 8 (fresh), <= 6 other pre-states", "window": "3 symbolic octets at every offset", "cuts": "every 2-chunk cut for raw strings <= 5", "pre_states": "same"},
 }
 OUTSIDE = [
@@ -72,6 +72,18 @@ def units(tier):
                 if not quick and k == 2 and off % 3 == 0:
                     us.append({"name": f"win{k}_{name}_o{off}_cut", "shape": {"kind": "win", "seed": name, "side": side, "pre": pre, "off": off, "k": k, "cut": off + 1}})
         us.append({"name": f"trunc_{name}", "shape": {"kind": "trunc", "seed": name, "side": side, "pre": pre}})
+    # prior session histories: two application calls (accepted or refused), then a delivered
+    # message of every kind whose id is symbolic
+    import itertools
+
+    from checks import sess as S_
+
+    hist_ops = {"client": ["bind_simple", "search", "extended", "unbind"], "server": ["recv_bind_request", "recv_search_request", "bind_response", "search_done", "extended_response"]}
+    recv_ops = {"client": [o for o in S_.CLIENT_OPS if o.startswith("recv_")], "server": [o for o in S_.SERVER_OPS if o.startswith("recv_")]}
+    for side in ("client", "server"):
+        for h in itertools.product(hist_ops[side], repeat=2):
+            for r in recv_ops[side]:
+                us.append({"name": f"hist_{side}_{'+'.join(h)}_{r}", "shape": {"kind": "hist", "side": side, "pre": "fresh", "hist": list(h), "recv": r}})
     return us
 
 
@@ -98,6 +110,20 @@ def body(ctx, shape):
                 ctx.require(len(r[1]) == 0, "truncated-message-yields-nothing")
                 # the rest arrives later: the message must come out (or an orderly protocol error)
                 common.checked_receive(ctx, sess, side, seed[t:], f"@{t}+")
+        return
+    if kind == "hist":
+        from checks import sess as S_
+
+        S = ctx.L.session
+        sess_ = S.LDAPClient() if side == "client" else S.LDAPServer()
+        for i, op in enumerate(shape["hist"]):
+            S_.do_op(ctx, sess_, side, op, f"h{i}")  # refusals (LDAPError) are part of the history
+        if sess_.state.name == "CLOSED":
+            return
+        mid = ctx.int("mid", 0, 6)
+        code = ctx.int("code", 0, 80)
+        data = S_.message_for(ctx, shape["recv"], mid, code).pack(S_.po(ctx))
+        common.checked_receive(ctx, sess_, side, data)
         return
     if kind == "raw":
         data = ctx.bytes("data", shape["n"])
